@@ -371,6 +371,15 @@ func c11subscribe(c *core.Ctx, ds, doEffect *ssa.Function) {
 		}
 	}
 	min, max, by := route(ds, func(v ssa.Value) bool { return v == ssa.Value(mcOb) }, mcOb.Block(), mcOb)
+	// which handler is which: the field written by ObserveOn (resp. SubscribeOn) and the parameter of the
+	// subscribe routine that receives it at the call sites
+	obNames, subNames := c11handlerNames(p, ds, "ObserveOn"), c11handlerNames(p, ds, "SubscribeOn")
+	if len(obNames) == 0 || len(subNames) == 0 {
+		c.Unknown("R3", "doSubscribe/handler-roles", p.Pos(ds.Pos()), "cannot tell which handler of the subscribe routine was set by ObserveOn and which by SubscribeOn")
+	} else if by != "" && !obNames[by] {
+		c.Fail("R3", "doSubscribe/handler-roles", p.InstrPos(mcOb), "the evaluation of the effect is routed to handler "+by+", which is not the one set by ObserveOn: the effect runs on the wrong goroutine")
+		by = ""
+	}
 	c.Check(guarded && min == 1 && max == 1 && by != "", "R3", "doSubscribe/observe-route", p.InstrPos(mcOb), "under OnNext != nil exactly one of {Post to "+by+", direct call}", fmt.Sprintf("observe routing runs the evaluation %d..%d times per Subscribe (must be 1), guardedByOnNext=%v, handler nil-check=%q", min, max, guarded, by))
 	// without OnNext nothing runs: no call outside the guarded region
 	stray := ""
@@ -410,6 +419,12 @@ func c11subscribe(c *core.Ctx, ds, doEffect *ssa.Function) {
 		return 0
 	}, nil)
 	smin, smax, sby := route(doOb, isDoSub, doOb.Blocks[0], nil)
+	if sby != "" && len(subNames) > 0 && !subNames[sby] {
+		c.Fail("R3", "doSubscribe/handler-roles", p.Pos(doOb.Pos()), "OnNext is routed to handler "+sby+", which is not the one set by SubscribeOn: the subscriber is called on the wrong goroutine")
+		sby = ""
+	} else if len(obNames) > 0 && len(subNames) > 0 && by != "" && sby != "" {
+		c.Pass("R3", "doSubscribe/handler-roles", p.Pos(ds.Pos()), "effect → handler set by ObserveOn ("+by+"), OnNext → handler set by SubscribeOn ("+sby+")")
+	}
 	// the evaluation result is stored to the variable doSub reads
 	stored := ""
 	core.Instrs(doOb, func(ins ssa.Instruction) {
@@ -477,4 +492,58 @@ func c11postOrRun(p *core.Prog, g *ssa.Function, fi int) (int, bool) {
 		return 0
 	}, nil)
 	return hidx, min == 1 && max == 1 && hidx >= 0
+}
+
+// c11handlerNames returns the access paths under which the handler installed by the exported setter
+// (ObserveOn / SubscribeOn) is visible inside the subscribe routine ds: the receiver field itself and
+// every parameter of ds that is bound to a read of that field at all call sites.
+func c11handlerNames(p *core.Prog, ds *ssa.Function, setter string) map[string]bool {
+	out := map[string]bool{}
+	m := p.Method(p.Fpgo, "MonadIODef", setter)
+	if m == nil || len(m.Params) < 2 {
+		return out
+	}
+	field := ""
+	core.Instrs(m, func(ins ssa.Instruction) {
+		if st, ok := ins.(*ssa.Store); ok && core.Resolve(st.Val) == ssa.Value(m.Params[1]) {
+			if fa, isFA := st.Addr.(*ssa.FieldAddr); isFA {
+				field = core.FieldName(fa.X.Type(), fa.Field)
+			}
+		}
+	})
+	if field == "" {
+		return out
+	}
+	out[ds.Params[0].Name()+"."+field] = true
+	sites, complete := core.CallSites(p, ds)
+	if !complete || len(sites) == 0 {
+		return out
+	}
+	for i, prm := range ds.Params {
+		if i == 0 {
+			continue
+		}
+		all := true
+		for _, s := range sites {
+			call, ok := s.Instr.(*ssa.Call)
+			if !ok || i >= len(call.Call.Args) {
+				all = false
+				break
+			}
+			fa, isLoad := core.Resolve(call.Call.Args[i]).(*ssa.UnOp)
+			if !isLoad {
+				all = false
+				break
+			}
+			f2, isFA := fa.X.(*ssa.FieldAddr)
+			if !isFA || core.FieldName(f2.X.Type(), f2.Field) != field {
+				all = false
+				break
+			}
+		}
+		if all {
+			out[prm.Name()] = true
+		}
+	}
+	return out
 }
